@@ -409,9 +409,12 @@ fn gen_dataset(rng: &mut Rng, nq: usize, report: &mut Report) -> Dataset {
             2 => Kind::Tenant,
             _ => Kind::Plain,
         };
-        let pred = match rng.below(5) {
-            0 => " AND metric_name = 'cpu'".to_string(),
+        // extra predicates of different shapes that keep every row (each selected chunk must
+        // contribute at least one row for its id to show in the result)
+        let pred = match rng.below(6) {
+            0 => " AND metric_name <> 'zzz'".to_string(),
             1 => " AND host <> 'h9'".to_string(),
+            2 => " AND value_f64 >= 0".to_string(),
             _ => String::new(),
         };
         let q = Q { kind, lo, hi, pred };
